@@ -297,7 +297,9 @@ func cmdC03(args []string) error {
 		cw := &c03world{w: w, origin: origin, r: r, pacs: newPacFactory()}
 		one := func(s c01Settings, qs ...c03Req) error { return cw.runSequence(tw, s, et, qs) }
 		H := func(c, m, t string) c03Hdr { return c03Hdr{Class: c, Mechs: m, Tok: t, Region: "na"} }
-		Q := func(h c03Hdr, ap map[string]string) c03Req { return c03Req{Hdr: h, AP: ap, Cookie: "none", Store: "nosm"} }
+		Q := func(h c03Hdr, ap map[string]string) c03Req {
+			return c03Req{Hdr: h, AP: ap, Cookie: "none", Store: "nosm"}
+		}
 		// ---- A. single requests, every header class
 		for _, c := range []string{"none", "otherScheme", "negotiateNoToken", "negotiateNoToken", "badBase64", "garbage", "garbage", "garbage"} {
 			if err := one(base, Q(H(c, "absent", "absent"), nominal)); err != nil {
